@@ -2,7 +2,7 @@
    Statements only; proofs live in SMP/. *)
 From Coq Require Import List ZArith Bool.
 From JSL Require Import Base.Res SM.Types SM.Util SM.Handler SM.Step SM.Middleware SM.Inv SM.Example
-  SMP.Reflect SMP.StepInv SMP.Main SMP.Clock SMP.FeasStep SMP.Agv SMP.LiftSide SMP.OutputDone SMP.LiftProv SMP.ProvBatch.
+  SMP.Reflect SMP.StepInv SMP.Main SMP.Clock SMP.FeasStep SMP.Agv SMP.LiftSide SMP.OutputDone SMP.LiftProv SMP.ProvBatch SMP.Claims.
 Import ListNotations.
 
 (* Every job is stored exactly once, every stored number is a job (placement_b), each job's location
@@ -84,6 +84,28 @@ Theorem C03_agv_load_micro_states :
 Proof. exact reach_micro_agv_load_b. Qed.
 Print Assumptions C03_agv_load_micro_states.
 
+(* "a job is claimed by at most one AGV" (claims_b) in EVERY state and micro-state of EVERY run of the middleware,
+   for every instance (ordered buffers and time dependencies included), oracle, fuel and action sequence: a claim is
+   only set by the dispatch of an idle AGV, dispatches come from the offers (jobs nobody has claimed) or the teleport
+   filter (pairwise different jobs), never from timed transitions or stored time dependencies (SMP/Claims.v, an
+   instance of the provenance lifting SMP/LiftProv.v). Hypotheses on the initial state are boolean and hold for
+   compiled initial states (no claims, no time dependency). *)
+Theorem C03_claims_reachable :
+  forall (sigma : oracle) (i : inst) (fuel : nat) (x0 : state) (joker0 : Z) (ta : bool) (r : result) (m : mw),
+    inst_nonneg_b i = true -> clock_b x0 = true -> claims_b x0 = true -> nodep_b x0 = true ->
+    reach sigma i fuel x0 joker0 ta r m -> claims_b (r_x r) = true.
+Proof. intros sigma i fuel x0 joker0 ta r m Hnn C Cl D H. eapply reach_claims; eauto. apply nodep_depk; auto. Qed.
+Print Assumptions C03_claims_reachable.
+
+Theorem C03_claims_micro_states :
+  forall (sigma : oracle) (i : inst) (fuel : nat) (x0 : state) (joker0 : Z) (ta : bool) (r : result) (m : mw)
+         (a : Z) (r' : result) (m' : mw) (lg : mlog),
+    inst_nonneg_b i = true -> clock_b x0 = true -> claims_b x0 = true -> nodep_b x0 = true ->
+    reach sigma i fuel x0 joker0 ta r m -> mw_step sigma i fuel r m a = MOk r' m' lg ->
+    forall tr y, In (tr, y) lg -> claims_b y = true.
+Proof. intros sigma i fuel x0 joker0 ta r m a r' m' lg Hnn C Cl D H Hm. eapply reach_micro_claims; eauto. apply nodep_depk; auto. Qed.
+Print Assumptions C03_claims_micro_states.
+
 (* The phases of an AGV agree with what it holds, claims and where it is (agv_phase_b): on the way to a pickup
    or waiting there it is empty, has a claim and a route; in TRANSIT it carries exactly one job along a route; in
    OUTAGE and IDLE it is empty and stands at a place (in OUTAGE without a claim); the WORKING phase is never
@@ -110,7 +132,8 @@ Print Assumptions C03_agv_phase_micro_states.
 
 (* non-vacuity: the compiled initial state of a real instance satisfies the hypothesis, and a
    mid-episode state (after accept, accept, accept, decline, accept) is reachable *)
-Example C03_hypothesis_satisfiable : wfs_b ex_inst ex_state = true /\ agv_load_b ex_state = true /\ agv_phase_b ex_state = true.
+Example C03_hypothesis_satisfiable : wfs_b ex_inst ex_state = true /\ agv_load_b ex_state = true /\ agv_phase_b ex_state = true
+  /\ clock_b ex_state = true /\ claims_b ex_state = true /\ nodep_b ex_state = true.
 Proof. vm_compute. repeat split; reflexivity. Qed.
 Example C03_reachable_nontrivial :
   exists r m, ex_after [1;1;1;0;1]%Z = Some (r, m) /\ wfs_b ex_inst (r_x r) = true /\ s_now (r_x r) = 1019%Z.
